@@ -20,12 +20,19 @@ SPEC = dict(
         "patterns are the unambiguous grammar G (exactly one parse of every generated text)",
         "cases where old and new are both non-PEP 440 are outside the model (counted as discarded)",
     ],
-    required=["agree:accepted", "agree:refused"],
+    required=["agree:accepted", "agree:refused", "subprocess_replays"],
     anchors=[("v2version", "_incr_numeric"), ("v2version", "_reset_rollover_fields"), ("v2version", "incr"),
              ("v2version", "_is_cal_gt"), ("cli", "_validate_flags")],
 )
 
 FLAGSETS = gen.all_flag_sets()
+_NOFLAGS = dict(major=False, minor=False, patch=False, tag=None, tag_num=False, pin_increments=False, pin_date=False)
+# witnesses that run on every tier: the known week-53 finding and the two repaired defects
+PINNED = [
+    {"p": "YYYY.WW.PATCH", "old": "2018.52.3", "date": "2018-12-31", "flags": dict(_NOFLAGS)},
+    {"p": "vYY.0W", "old": "v42.00", "date": "2042-01-03", "flags": dict(_NOFLAGS, tag="dev", pin_date=True)},
+    {"p": "MINOR[-TAGNUM]", "old": "0-dev0", "date": "2021-01-01", "flags": dict(_NOFLAGS, tag="final", pin_date=True)},
+]
 
 
 def cases(ctx):
@@ -147,6 +154,17 @@ def run_case(ctx, case):
     ntk = (ref.shape(ast), "".join("1" if fl.get(f) else "0" for f in gen.FLAG_NAMES),
            ",".join(changed), ref.render_info(ast, cur)[1] if exp else -1, "acc" if exp else "ref")
     ctx.evaluated(ntk, sample={"argv": res.args, "expected": exp, "observed": got})
+    if ctx.rng.random() < (0.004 if ctx.quick else 0.0005):
+        # the true CLI boundary: the same case through `python -m bumpver` in a child process
+        rc, out, _err = harness.run_cli_subprocess(["test", old_text, p] + gen.flags_to_args(fl, date), cwd=None)
+        sub = None
+        for ln in out.splitlines():
+            if ln.startswith("New Version: "):
+                sub = ln[len("New Version: "):]
+        ctx.count("subprocess_replays")
+        if (rc == 0) != (res.exit_code == 0) or (sub if rc == 0 else None) != got:
+            ctx.violation("other:subprocess_differs_from_in_process", f"test {old_text!r} {p!r}: in-process exit "
+                          f"{res.exit_code} {got!r}, subprocess exit {rc} {sub!r}", case=dict(case, old=old_text))
     if got == exp:
         ctx.count("agree:accepted" if got else "agree:refused")
         if fl.get("pin_date"):
